@@ -10,7 +10,7 @@ INFO = {
             "stream activity is an idle spin; once the input has ended the block must report EOF or wait on the ended input.",
     "bounds": "capacity 2..3, prefix schedules of <=3 steps, input length <=4; blocks: XorConst (sync macro), NrziDecode, Skip, Delay, "
               "RationalResampler, RtlSdrDecode, BinarySlicer, VectorSource, ConstantSource, NullSink, VectorSink.",
-    "outside": "FftStream, SignalSource*, AuEncode/AuDecode, VecToStream, StreamToPdu, FileSource/TcpSource (I/O) - not yet built; "
+    "outside": "FftStream (kani-compiler 0.68 internal error on its rayon branch), SignalSource*, AuEncode/AuDecode, VecToStream, StreamToPdu, FileSource/TcpSource (I/O) - not yet built; "
                "MTGraph's use of the verdicts (C05).",
     "stubs": ["heap ring + stand-ins (C01)", "std::fmt::format -> empty"],
     "assumptions": ["Kani/CBMC soundness", "a stream end is identified by the Arc pointer it holds (single-field structs)"],
@@ -54,27 +54,19 @@ def all_harnesses():
                                           unit=unit + "::work verdict", timeout=900,
                                           shape={"block": key, "params": extra.strip(', '), "cap": cap, "situation": desc, "upstream_gone": gone}, core=core))
     # AuDecode: header (28 bytes) then data in pieces; situations after the header
-    for si, (s, desc) in enumerate(([(28, 0), (28, 0), (28, 0), (1, 0)], "header done, 1 data byte"), ([(28, 0), (28, 0), (28, 0), (3, 0), (0, 0)], "3 data bytes, then 1 left"),
+    for si, (s, desc) in enumerate((([(28, 0), (28, 0), (28, 0), (1, 0)], "header done, 1 data byte"), ([(28, 0), (28, 0), (28, 0), (3, 0), (0, 0)], "3 data bytes, then 1 left"),
                                     ([(28, 0), (28, 0), (28, 0), (4, 0), (0, 0)], "output full"), ([(7, 0), (7, 0)], "header incomplete"))):
         for cap_out in (1, 4):
             for gone in (False, True):
                 hs.append(Harness(f"c09_audec_s{si}_o{cap_out}_{'gone' if gone else 'alive'}", f"crate::c09::au_decode({rs_sched(s)}, 40, {cap_out}, {str(gone).lower()})",
                                   unwind=44, unit="AuDecode::work verdict", timeout=1500,
                                   shape={"block": "AuDecode", "situation": desc, "cap_out": cap_out, "upstream_gone": gone}, core=(si in (0, 1) and cap_out == 4 and not gone)))
-    for size in (2, 3):
-        for cap in (size, size + 1):
-            for si, (s, desc) in enumerate(situations(cap)):
-                for gone in (False, True):
-                    hs.append(Harness(f"c09_fftstream_n{size}_c{cap}_s{si}_{'gone' if gone else 'alive'}",
-                                      f"crate::c09::fft_stream({size}, 6, {cap}, {rs_sched(s)}, {str(gone).lower()})", unwind=14, unit="FftStream::work verdict",
-                                      timeout=1500, shape={"block": "FftStream", "size": size, "cap": cap, "situation": desc, "upstream_gone": gone},
-                                      core=(size == 2 and cap == 3 and si in (3, 4) and not gone)))
     for cap in (1, 2):
         for ln in (1, 2, 3):
             for inf in (False, True):
                 for di, dr in enumerate(([0, 0, 0], [cap, 0, 1, cap], [1, 1, 1, 1, 1])):
                     hs.append(Harness(f"c09_vsrc_c{cap}_l{ln}_{'inf' if inf else 'fin'}_d{di}",
-                                      f"crate::c09::vector_source({ln}, {cap}, {rl(dr)}, {str(inf).lower()})", unwind=12, unit="VectorSource::work verdict",
+                                      f"crate::c09::vector_source({ln}, {cap}, {rl(dr)}, {str(inf).lower()})", unwind=28, unit="VectorSource::work verdict",
                                       shape={"block": "VectorSource", "cap": cap, "len": ln, "infinite": inf, "drains": dr}, timeout=900,
                                       core=(cap == 2 and ln == 3 and di in (0, 1))))
         for di, dr in enumerate(([0, 0, 0], [cap, 0, 1, cap])):
